@@ -14,13 +14,15 @@ import HmfVerif.Gen.ExprFilters
 import HmfVerif.Gen.ExprGrowth
 import HmfVerif.Spec.Wdm
 import HmfVerif.Spec.Mdef
+import HmfVerif.Spec.Transfer
 /-! Driver: one request per line on stdin, one canonical answer per line on stdout. -/
 
 def exprTables : List (String × List (String × Hmf.E)) :=
   [("Fits", Hmf.Gen.Fits.table), ("SpecFits", Hmf.Spec.Fits.table),
    ("Wdm", Hmf.Gen.Wdm.table), ("WdmAlter", Hmf.Gen.WdmAlter.table), ("Flow", Hmf.Gen.Flow.table), ("Mdef", Hmf.Gen.Mdef.table),
    ("Transfer", Hmf.Gen.Transfer.table), ("Filters", Hmf.Gen.Filters.table), ("Growth", Hmf.Gen.Growth.table),
-   ("SpecWdm", Hmf.Spec.Wdm.table), ("SpecMdef", Hmf.Spec.Mdef.table)]
+   ("SpecWdm", Hmf.Spec.Wdm.table), ("SpecMdef", Hmf.Spec.Mdef.table),
+   ("SpecTransfer", Hmf.Spec.Transfer.table)]
 
 def lookupTerm (name : String) : Option Hmf.E :=
   match name.splitOn "/" with
